@@ -66,7 +66,12 @@ def rowDeletes (ch seq : Nat) : Val → List W
 def deleteSeqs (s : Store) (ch : Nat) (seqs : List Nat) : List W :=
   (seqs.map (fun q => match get s (.row ch q) with | some v => rowDeletes ch q v | none => [])).flatten
 
-def sortedSeqs (s : Store) (ch : Nat) : List Nat := (rowSeqs s ch).mergeSort (· ≤ ·)
+def insertNat (x : Nat) : List Nat → List Nat
+  | [] => [x]
+  | y :: ys => if x ≤ y then x :: y :: ys else y :: insertNat x ys
+
+/-- the row sequences of a channel in ascending order (the order Pebble iterates the row keys) -/
+def sortedSeqs (s : Store) (ch : Nat) : List Nat := (rowSeqs s ch).foldr insertNat []
 
 /-! ### `validateAppendRow` over a batch of rows -/
 
@@ -108,6 +113,11 @@ def curRet (s : Store) (ch : Nat) : Nat × Nat × Nat × Bool :=
   | some (.ret l p m) => (l, p, m, true)
   | _ => (0, 0, 0, false)
 
+/-- checkpoint HW advance staged with an append / apply (`CheckpointHW`, `Committed`): epoch and
+    log start are preserved, nothing is written unless the HW grows -/
+def ckptAdvance (s : Store) (ch h : Nat) : List W :=
+  if h > (curCkpt s ch).2.2.1 then [W.put (.ckpt ch) (.ckpt (curCkpt s ch).1 (curCkpt s ch).2.1 h)] else []
+
 /-- `LoadDurableFrontier` succeeds -/
 def frontierLoads (s : Store) (ch : Nat) : Bool :=
   let l := leo s ch
@@ -134,6 +144,21 @@ def proposals (s : Store) (ch : Nat) : List (Nat × Nat × Nat) :=
     | (.pl c last, .prop b _ cmd _ _) => if c = ch then some (last, b, cmd) else none
     | _ => none)
 
+/-! ### one bounded prefix trim (`trimPrefixThroughLimit`, adoptBoundary = false) -/
+
+/-- rows `readRows(physical+1, through)` returns, in key order -/
+def trimCand (s : Store) (ch rp through : Nat) : List Nat :=
+  (sortedSeqs s ch).filter (fun q => rp + 1 ≤ q ∧ q ≤ through)
+
+/-- `result.More`: the read (limit MaxMessages+1) found more than MaxMessages rows -/
+def trimMore (cand : List Nat) (maxMsgs : Nat) : Bool := decide (maxMsgs > 0 ∧ cand.length > maxMsgs)
+
+def trimDels (cand : List Nat) (maxMsgs : Nat) : List Nat := if trimMore cand maxMsgs then cand.take maxMsgs else cand
+
+/-- next PhysicalRetentionThroughSeq -/
+def trimNp (rp through : Nat) (more : Bool) (deletedThrough : Nat) : Nat :=
+  if !more ∧ through > rp then through else if deletedThrough > rp then deletedThrough else rp
+
 /-- one mutation = result + the single batch it commits (`[]` = no commit) -/
 def plan (s : Store) : Op → Res × List W
   | .app ch mode recs =>
@@ -144,17 +169,13 @@ def plan (s : Store) : Op → Res × List W
   | .fetch ch hw recs =>
     let base := leo s ch
     let next := base + recs.length
-    let (e, st, cur, _) := curCkpt s ch
-    match (match hw with
-           | some h => if h > next then none else some (if h > cur then [W.put (.ckpt ch) (.ckpt e st h)] else [])
-           | none => some []) with
-    | none => (.corrupt, [])
-    | some ck =>
-      if recs.isEmpty ∧ hw.isNone then (.ok [next], []) else
-      if !validateRows s ch 2 (base + 1) recs [] [] then (.corrupt, []) else
-      if recs.isEmpty ∧ ck.isEmpty then (.ok [next], []) else
-      (.ok [next], rowsWrites ch base recs ++ ck ++
-        (if recs.isEmpty then [W.put (.cat ch) (.nat 1)] else catalogW ch base))
+    if (match hw with | some h => decide (h > next) | none => false) then (.corrupt, []) else
+    let ck := match hw with | some h => ckptAdvance s ch h | none => []
+    if recs.isEmpty ∧ hw.isNone then (.ok [next], []) else
+    if !validateRows s ch 2 (base + 1) recs [] [] then (.corrupt, []) else
+    if recs.isEmpty ∧ ck.isEmpty then (.ok [next], []) else
+    (.ok [next], rowsWrites ch base recs ++ ck ++
+      (if recs.isEmpty then [W.put (.cat ch) (.nat 1)] else catalogW ch base))
   | .xapp ch cmd term committed mode recs =>
     if !frontierLoads s ch then (.frontier, []) else
     let base := leo s ch
@@ -162,13 +183,12 @@ def plan (s : Store) : Op → Res × List W
     if n = 0 then (.invalid, []) else
     let next := base + n
     if committed > next then (.invalid, []) else
-    let (e, st, cur, _) := curCkpt s ch
-    if committed ≠ 0 ∧ cur > next then (.corrupt, []) else
+    if committed ≠ 0 ∧ hwOf s ch > next then (.corrupt, []) else
     if !validateRows s ch mode (base + 1) recs [] [] then (.corrupt, []) else
     let pterm := tailTerm s ch
     (.ok [base, next, 1],
       rowsWrites ch base recs ++
-      (if committed > cur then [W.put (.ckpt ch) (.ckpt e st committed)] else []) ++
+      ckptAdvance s ch committed ++
       [W.put (.pl ch next) (.prop base next cmd term pterm), W.put (.pc ch cmd) (.prop base next cmd term pterm)] ++
       entryWrites ch base cmd term pterm n ++ catalogW ch base)
   | .trunc ch to =>
@@ -198,17 +218,14 @@ def plan (s : Store) : Op → Res × List W
       (if needCur then [W.put (.cur ch) (.nat nl)] else []) ++ [W.put (.cat ch) (.nat 1)])
   | .trim ch through maxMsgs =>
     if through = 0 then (.invalid, []) else
-    let l := leo s ch
     let (rl, rp, rm, _) := curRet s ch
     if through > rl then (.corrupt, []) else
-    let cand := (sortedSeqs s ch).filter (fun q => rp + 1 ≤ q ∧ q ≤ through)
-    let more := maxMsgs > 0 ∧ cand.length > maxMsgs
-    let dels := if more then cand.take maxMsgs else cand
-    let nm := max rm l
-    let delThrough := dels.getLast?.getD 0
-    let np := if !more ∧ through > rp then through else if delThrough > rp then delThrough else rp
+    let cand := trimCand s ch rp through
+    let dels := trimDels cand maxMsgs
+    let nm := max rm (leo s ch)
+    let np := trimNp rp through (trimMore cand maxMsgs) (dels.getLast?.getD 0)
     if (rl = 0 ∧ nm > 0) ∨ np > rl ∨ (rl > 0 ∧ nm < rl) then (.corrupt, []) else
-    (.ok [dels.length, delThrough, if more then 1 else 0],
+    (.ok [dels.length, dels.getLast?.getD 0, if trimMore cand maxMsgs then 1 else 0],
       deleteSeqs s ch dels ++ [W.put (.ret ch) (.ret rl np nm), W.put (.cat ch) (.nat 1)])
   | .ckpt ch hw =>
     let (e, st, cur, present) := curCkpt s ch
